@@ -281,4 +281,112 @@ theorem isEsc_unicode (hs : Line) (bs : List Nat) (hne : hs ≠ []) (hh : ∀ c 
   congr 1
   omega
 
+/-! ## decimal literals over every digit the lexer accepts (`\d`: Unicode `Nd`) -/
+
+theorem symbols_head_not_udigit : ∀ s ∈ symbolTokens, ∀ c ∈ (cps s).head?, digitVal c = none := by decide +kernel
+
+theorem digit_ranges_not_letters : ∀ r ∈ digitRanges, r.2.1 < 64 ∨ 122 < r.1 := by decide +kernel
+
+theorem udigit_range (c v : Nat) (h : digitVal c = some v) : @LT.lt Nat _ c 64 ∨ @LT.lt Nat _ 122 c := by
+  unfold digitVal at h
+  cases hf : digitRanges.find? (fun (lo, hi, _) => lo ≤ c && c ≤ hi) with
+  | none => rw [hf] at h; cases h
+  | some r =>
+    have hm := List.mem_of_find?_eq_some hf
+    have hp := List.find?_some hf
+    obtain ⟨lo, hi, x⟩ := r
+    simp only [Bool.and_eq_true, decide_eq_true_eq] at hp
+    have := digit_ranges_not_letters (lo, hi, x) hm
+    have h1 : @LE.le Nat _ lo c := hp.1
+    have h2 : @LE.le Nat _ c hi := hp.2
+    have h3 : @LT.lt Nat _ hi 64 ∨ @LT.lt Nat _ 122 lo := this
+    omega
+
+theorem readSymbol_udigit (c v : Nat) (l : Line) (hc : digitVal c = some v) : readSymbol (c :: l) = none := by
+  unfold readSymbol
+  have : symbolTokens.find? (fun s => isPrefix (cps s) (c :: l)) = none := by
+    rw [List.find?_eq_none]
+    intro s hs hp
+    unfold isPrefix at hp
+    have heq := eq_of_beq hp
+    cases hcs : cps s with
+    | nil => exact absurd hcs (symbols_shape s hs).1
+    | cons d r =>
+      have hd := symbols_head_not_udigit s hs d (by rw [hcs]; rfl)
+      rw [hcs] at heq
+      simp only [List.length_cons, List.take_succ_cons] at heq
+      injection heq with h1 _
+      rw [← h1, hc] at hd; cases hd
+  rw [this]; rfl
+
+theorem readIdent_udigit (c v : Nat) (l : Line) (hc : digitVal c = some v) : readIdent (c :: l) = .none := by
+  have hr := udigit_range c v hc
+  have h64 : c ≠ 64 := fun h => by have : @Eq Nat c 64 := h; omega
+  have h33 : c ≠ 33 := fun h => by
+    have hn : digitVal 33 = none := by decide +kernel
+    rw [h, hn] at hc; cases hc
+  have hid : isIdStart c = false := by
+    unfold isIdStart
+    simp only [Bool.or_eq_false_iff, Bool.and_eq_false_iff, decide_eq_false_iff_not, beq_eq_false_iff_ne]
+    refine ⟨⟨?_, ?_⟩, fun h => ?_⟩
+    · by_cases h97 : @LE.le Nat _ 97 c
+      · exact Or.inr (fun h => by have : @LE.le Nat _ c 122 := h; omega)
+      · exact Or.inl h97
+    · by_cases h65 : @LE.le Nat _ 65 c
+      · exact Or.inr (fun h => by have : @LE.le Nat _ c 90 := h; omega)
+      · exact Or.inl h65
+    · have : @Eq Nat c 95 := h; omega
+  unfold readIdent
+  split
+  · rename_i r' h; injection h with h1 _; exact absurd h1 h64
+  · rename_i r' h; injection h with h1 _; exact absurd h1 h33
+  · simp only [matchIdent, hid]; rfl
+
+theorem udigit_not_space (c v : Nat) (hc : digitVal c = some v) : isSpace c = false := by
+  cases hs : isSpace c with
+  | false => rfl
+  | true => have := digitVal_space c hs; rw [hc] at this; cases this
+
+/-- a decimal literal written with any digits of class `\d` (optionally separated by single underscores), in front of anything
+that does not continue it -/
+theorem readsAs_decimal_unicode (c0 v0 : Nat) (h0 : digitVal c0 = some v0) (tl : List (Bool × CP)) (val : CP → Nat)
+    (hv : ∀ x ∈ tl, digitVal x.2 = some (val x.2)) (rest : Line) (hstop : Stops digitVal rest)
+    (hzero : tl = [] → c0 = 48 → ∀ q r, rest = q :: r → q ≠ 120 ∧ q ≠ 111 ∧ q ≠ 98) :
+    ReadsAs (c0 :: renderTail tl) (.int (ofDigits 10 (v0 :: tl.map (fun x => val x.2)))) rest := by
+  refine ⟨by simp, fun c r h => (by injection h with h1 _; rw [← h1]; exact udigit_not_space c0 v0 h0),
+    fun r h => (by
+      simp only [List.cons_append] at h
+      injection h with h1 _
+      have hn : digitVal 47 = none := by decide +kernel
+      rw [h1, hn] at h0; cases h0), ?_⟩
+  unfold readToken
+  rw [List.cons_append, readSymbol_udigit c0 v0 _ h0]
+  simp only [readIdent_udigit c0 v0 _ h0]
+  have hq : ∀ q r, c0 :: (renderTail tl ++ rest) = 48 :: q :: r → q ≠ 120 ∧ q ≠ 111 ∧ q ≠ 98 := by
+    intro q r h
+    injection h with h1 h2
+    cases tl with
+    | nil => exact hzero rfl h1 q r (by simpa [renderTail] using h2)
+    | cons x tl' =>
+      have key : @LT.lt Nat _ q 98 ∨ @LT.lt Nat _ 122 q := by
+        obtain ⟨sep, c⟩ := x
+        have hc := hv (sep, c) (by simp)
+        cases sep with
+        | true =>
+          simp only [renderTail, if_true, List.cons_append] at h2
+          injection h2 with h3 _
+          have : @Eq Nat 95 q := h3
+          omega
+        | false =>
+          simp only [renderTail, Bool.false_eq_true, if_false, List.cons_append] at h2
+          injection h2 with h3 _
+          have := udigit_range c _ hc
+          have h4 : @Eq Nat c q := h3
+          omega
+      refine ⟨fun h => ?_, fun h => ?_, fun h => ?_⟩ <;> (have : @Eq Nat q _ := h; omega)
+  rw [readInt_decimal _ hq]
+  have hspec := digitsSep_spec digitVal (by decide +kernel) c0 v0 h0 tl val hv rest hstop
+  rw [← List.cons_append, hspec]
+  simp [Nat.add_comm]
+
 end HidVerif.Hid.Lex
